@@ -46,6 +46,9 @@ func deviationsAt(sc *dscenario, rec sim.Rec) []string {
 		if rec.Text != "<password>" {
 			l = []string{sim.DevStall, sim.DevClose}
 		}
+		if rec.Text == "enable" {
+			l = []string{sim.DevError, sim.DevStall, sim.DevClose}
+		}
 	}
 	return l
 }
